@@ -12,7 +12,7 @@ use std::{i128, mem};
 
 use crate::core::consensus::blockchain::Blockchain;
 use crate::core::consensus::burnfee::BurnFee;
-use crate::core::consensus::golden_ticket::GoldenTicket;
+use crate::core::consensus::golden_ticket::{GoldenTicket, GOLDEN_TICKET_SIZE};
 use crate::core::consensus::hop::HOP_SIZE;
 use crate::core::consensus::merkle::MerkleTree;
 use crate::core::consensus::slip::{Slip, SlipType, SLIP_SIZE};
@@ -1437,7 +1437,9 @@ impl Block {
                 cv.total_fees_new += transaction.total_fees;
             }
 
-            if transaction.is_golden_ticket() {
+            // (a transaction of this type whose payload is not a golden ticket is refused by
+            // Transaction::validate; it is not a ticket to pay out on)
+            if transaction.is_golden_ticket() && transaction.data.len() == GOLDEN_TICKET_SIZE {
                 cv.gt_num = cv.gt_num.saturating_add(1);
                 cv.gt_index = Some(index);
             }
